@@ -1,6 +1,6 @@
 (* DC01.v — dispatch entries of property C01 (point ↦ voxel) and the NewPoint entry shared with C15 *)
 From Coq Require Import ZArith String List Bool Floats.
-From SID Require Import Base Str Ids Wire F64 ExactRef PointF FF XF PointCheck.
+From SID Require Import Base Str Ids Wire F64 ExactRef PointF FF XF PointCheck PointSetters.
 Import ListNotations.
 Open Scope string_scope.
 
@@ -201,6 +201,89 @@ Open Scope string_scope.
     | _, _ => bad_case
     end.
 
+  (* PointSetterSequence: NewPoint, then SetLon / SetLat / SetAlt in a generated order on the SAME object, read back with the getters, then
+     the object is converted. args = [requested triple; ops = list of [kind 0 lon | 1 lat | 2 alt; value]; h; v];
+     observed = [error flag of every setter call; stored triple; IDs].  corr: flags, stored bits and IDs against PointSetters.run_setters
+     and points_api.  prop (independent of run_setters): every flag is the documented refusal, longitude / altitude are the bits of the
+     last accepted write, the latitude is the last accepted request cut toward zero by < 1e-10 (class setlat_inexact as for NewPoint),
+     and the ID satisfies the C01 checker for the stored point. *)
+  Fixpoint as_ops (l : list val) : option (list setter) :=
+    match l with
+    | [] => Some []
+    | VL [VZ k; VF x] :: r =>
+        match as_ops r with
+        | Some t => if (k =? 0)%Z then Some (SLon x :: t) else if (k =? 1)%Z then Some (SLat x :: t) else if (k =? 2)%Z then Some (SAlt x :: t) else None
+        | None => None end
+    | _ => None
+    end.
+  Definition lat_refused (x : float) : bool := (c_latmax <? abs (setlat_trunc x))%float.
+  (* expected flags and the last accepted request per field, computed from the documentation of each setter, not from run_setters *)
+  Fixpoint expect_ops (l : list setter) (lon latreq alt : float) : list bool * (float * float * float) :=
+    match l with
+    | [] => ([], (lon, latreq, alt))
+    | SLon x :: r => let bad := (180 <? abs x)%float in
+                     let '(fl, t) := expect_ops r (if bad then lon else x) latreq alt in (bad :: fl, t)
+    | SLat x :: r => let bad := lat_refused x in
+                     let '(fl, t) := expect_ops r lon (if bad then latreq else x) alt in (bad :: fl, t)
+    | SAlt x :: r => let '(fl, t) := expect_ops r lon latreq x in (false :: fl, t)
+    end.
+  Fixpoint flags_eq (a : list bool) (b : list val) : bool :=
+    match a, b with
+    | [], [] => true
+    | x :: a', VB y :: b' => Bool.eqb x y && flags_eq a' b'
+    | _, _ => false
+    end.
+  Definition d_setters (oracle : oracle_t) (args : list val) (obs : val) : verdict :=
+    match args, obs with
+    | [VL [VF lon; VF lat; VF alt]; VL ops; VZ h; VZ v], VL [VL fl; st; ids] =>
+        match as_ops ops, as_point st with
+        | Some l, Some s =>
+            let '(p0, e0) := new_point lon lat alt in
+            if e0 || negb (check_zoom h && check_zoom v) then bad_case
+            else
+              let tanf := ofun oracle "tan" in let cosf := ofun oracle "cos" in let logf := ofun oracle "log" in
+              let '(pm, mfl) := run_setters p0 l in
+              let mids := points_api tanf cosf logf false [pm] h v in
+              let corr := flags_eq mfl fl && feqb_bits (plon s) (plon pm) && feqb_bits (plat s) (plat pm) && feqb_bits (palt s) (palt pm) &&
+                          corr_list true mids ids in
+              let '(efl, (elon, elat, ealt)) := expect_ops l lon lat alt in
+              let base := flags_eq efl fl && feqb_bits (plon s) elon && feqb_bits (palt s) ealt in
+              let sign := (0 <=? elat)%float && (0 <=? plat s)%float || (elat <=? 0)%float && (plat s <=? 0)%float in
+              let latv := if exact_cut_ok elat (plat s) && sign then "ok"
+                          else if negb (exact_cut_ok elat (setlat_trunc elat)) && cut_band_ok elat (plat s) && sign then "setlat_inexact" else "fail" in
+              let r := ((if base then "ok" else "fail") :: latv :: obs_res false [s] h v ids)%list in
+              if has "ood" r then bad_case
+              else
+                let prop := forallb (String.eqb "ok") r in
+                let cls := if corr && negb prop && negb (has "fail" r) then first_class r else "-" in
+                mkv corr prop cls (VL [VL (map VB mfl); of_point pm; res_strings mids])
+        | _, _ => bad_case
+        end
+    | _, _ => bad_case
+    end.
+
+  (* VerticalTileIdOnAltitude: the unexported getVerticalTileIdOnAltitude through its verif hook, directly against PointF.f_f:
+     args = [alt; v], observed = the string "v/f".  Any float altitude with |alt| <= 2^40, v in 0..35. *)
+  Definition d_vtile (args : list val) (obs : val) : verdict :=
+    match args, obs with
+    | [VF alt; VZ v], VS s =>
+        let p := {| plon := 0%float; plat := 0%float; palt := alt |} in
+        if negb (check_zoom v) || negb (in_domain_point p) then bad_case
+        else
+          let m := vertical_tile_id alt v in
+          let corr := match m with Some t => String.eqb t s | None => false end in
+          let r := match map parse (split s), exact_f alt v with
+                   | [Some v'; Some f], Some f' =>
+                       if negb ((v' =? v)%Z && f_range_ok p v f) then "fail"
+                       else if (f =? f')%Z then "ok"
+                       else if alt_underflow_b alt v then "alt_underflow" else "fail"
+                   | _, _ => "fail" end in
+          let prop := String.eqb r "ok" in
+          mkv corr prop (if corr && negb prop && negb (String.eqb r "fail") then r else "-") (match m with Some t => VS t | None => VNil end)
+    | _, _ => bad_case
+    end.
+
 Definition table_C01 : table :=
   [("GetExtendedSpatialIdsOnPoints", fun o => d_points o false); ("GetSpatialIdsOnPoints", fun o => d_points o true);
-   ("NewPoint", fun _ => d_new_point); ("LatRow", d_lat_row); ("PointMoveSequence", d_move)].
+   ("NewPoint", fun _ => d_new_point); ("LatRow", d_lat_row); ("PointMoveSequence", d_move);
+   ("PointSetterSequence", d_setters); ("VerticalTileIdOnAltitude", fun _ => d_vtile)].
